@@ -30,7 +30,18 @@ def independence_match(X, Y, Z, independencies, **kwargs):
     -------
     p-value: float (Fixed to 0 since it is always confident)
     """
-    return IndependenceAssertion(X, Y, Z) in independencies
+    if IndependenceAssertion(X, Y, Z) in independencies:
+        return True
+    # Set-valued assertions (as listed e.g. by DAG.get_independencies) imply the
+    # pairwise statement by decomposition: (A _|_ B | Z) with X in A and Y in B.
+    Z = frozenset([Z] if isinstance(Z, str) else Z)
+    for assertion in independencies.get_assertions():
+        if assertion.event3 == Z and (
+            (X in assertion.event1 and Y in assertion.event2)
+            or (Y in assertion.event1 and X in assertion.event2)
+        ):
+            return True
+    return False
 
 
 def chi_square(X, Y, Z, data, boolean=True, **kwargs):
